@@ -187,6 +187,66 @@ def hand_written(prog):
             except absint.Unrecognised as e:
                 res[kind] = "cannot interpret: %s" % e
         out[short] = res
+    # the other model types: a hand-written *writer* next to the derived reader is judged by what it hands to the serializer -- for a struct
+    # without omitted members the sequence serialize_struct(name, n), serialize_field(key, &self.member).., end(); for a fieldless enum
+    # serialize_unit_variant(name, index, tag) per variant.  (What the keys and tags must be is the attribute tables' business: check_type.)
+    SZ = "serde_core::ser::Serializer"
+    SS = "serde_core::ser::SerializeStruct"
+    for short, path in sorted(c06.MODEL.items()):
+        if short in out:
+            continue
+        a = prog.adts.get(path)
+        si = prog.impl_for(SER, lambda t: t["k"] == "adt" and t["d"] == path)
+        di = prog.impl_for(DES, lambda t: t["k"] == "adt" and t["d"] == path)
+        hand_s = [i for i in si if not i["automatically_derived"]]
+        hand_d = [i for i in di if not i["automatically_derived"]]
+        if a is None or not (hand_s or hand_d):
+            continue
+        res = {"ser": None, "de": "not analysable" if hand_d else None}
+        if hand_s:
+            res["ser"] = "not analysable"
+            fn = [it for it in hand_s[0]["items"] if it["name"] == "serialize" and it.get("path") in prog._bodies_raw]
+            if len(si) == 1 and fn:
+                class W(symrun.Run):
+                    def handler(self, name, args, t):
+                        decl = mir.strip_generics(t.get("callee") or "")
+                        if decl == SZ + "::serialize_struct" and len(args) == 3:
+                            self.log.append(("struct", args[0], args[1], args[2]))
+                            return absint.ok(S_("STATE"))
+                        if decl == SS + "::serialize_field" and len(args) == 3:
+                            self.log.append(("field", args[0], args[1], args[2]))
+                            return absint.ok(("tuple", []))
+                        if decl == SS + "::end" and len(args) == 1:
+                            self.log.append(("end", args[0]))
+                            return S_("OUT")
+                        if decl == SZ + "::serialize_unit_variant" and len(args) == 4:
+                            self.log.append(("unit_variant", args[0], args[1], args[2], args[3]))
+                            return S_("OUT")
+                        return symrun.Run.handler(self, name, args, t)
+                try:
+                    if a["kind"] == "struct":
+                        r = W(prog, {})
+                        v = r.run(fn[0]["path"], [symrun.struct(prog, path, "self"), S_("serializer")])
+                        lg = r.log
+                        shape = v == S_("OUT") and len(lg) >= 2 and lg[0][0] == "struct" and lg[0][1] == S_("serializer") and lg[-1] == ("end", S_("STATE")) \
+                            and all(x[0] == "field" and x[1] == S_("STATE") and isinstance(x[2], S_) and x[2].name.startswith("str:") and isinstance(x[3], S_) and x[3].name.startswith("self.") for x in lg[1:-1])
+                        if shape and isinstance(lg[0][2], S_) and lg[0][2].name.startswith("str:") and lg[0][3] == len(lg) - 2:
+                            res["ser"] = {"kind": "struct", "name": lg[0][2].name[4:], "fields": [(x[3].name[5:], x[2].name[4:]) for x in lg[1:-1]]}
+                        else:
+                            res["ser"] = "writes %s" % [(x[0],) + tuple(symrun.show(y) for y in x[1:]) for x in lg]
+                    elif a["kind"] == "enum" and all(not vv["fields"] for vv in a["variants"]):
+                        vs = []
+                        for k_, vv in enumerate(a["variants"]):
+                            r = W(prog, {})
+                            v = r.run(fn[0]["path"], [("variant", vv["name"], [], k_, (), path), S_("serializer")])
+                            if not (v == S_("OUT") and len(r.log) == 1 and r.log[0][0] == "unit_variant" and r.log[0][1] == S_("serializer")
+                                    and isinstance(r.log[0][2], S_) and isinstance(r.log[0][4], S_) and r.log[0][4].name.startswith("str:") and isinstance(r.log[0][3], int)):
+                                raise absint.Unrecognised("variant %s writes %s" % (vv["name"], [(x[0],) + tuple(symrun.show(y) for y in x[1:]) for x in r.log]))
+                            vs.append((vv["name"], r.log[0][2].name[4:], r.log[0][3], r.log[0][4].name[4:]))
+                        res["ser"] = {"kind": "enum", "variants": vs}
+                except absint.Unrecognised as e:
+                    res["ser"] = "cannot interpret: %s" % e
+        out[short] = res
     return out
 
 
@@ -219,9 +279,12 @@ def check_type(chk, sf, short, feats, cfg, reg_de=True, hand=None):
         if not (has_ser or has_de):
             return
         # fall through: the attribute rules below judge the derived side
+    elif not has_ser and isinstance(hs.get("ser"), dict) and hs.get("de") is None and (has_de or short in ("PortableRegistry", "PortableType")) and "serde" in feats:
+        pass      # a hand-written writer whose calls are known (hand_written): its name, keys and tags are compared with the tables below
     elif not has_ser:
         chk.fail("R8.3", "derive:%s:Serialize" % short, where, "%s does not derive Serialize under %s" % (short, cfg), cfg)
         return
+    hw = hs.get("ser") if isinstance(hs.get("ser"), dict) and not has_ser else None
     cont = serde_nested(metas)
     rename_all, split = get_nv(cont, "rename_all")
     if split:
@@ -303,6 +366,14 @@ def check_type(chk, sf, short, feats, cfg, reg_de=True, hand=None):
         if len(set(got.values())) != len(got):
             keys_ok = False
             detail = "two members share a JSON key: %s" % got
+        if hw is not None and keys_ok:
+            # the hand-written writer must write what the derive would have: every data member, in declaration order, under the reader's key; and no
+            # member of this type may be one the derive would omit when empty (the writer's calls are unconditional)
+            want_seq = [(fld["ident"], got[fld["ident"]]) for fld, fn, fwhere in data]
+            omitted = [i_ for (s_, i_) in OMIT if s_ == short]
+            keys_ok = hw.get("kind") == "struct" and hw["name"] == short and hw["fields"] == want_seq and not omitted
+            detail = "hand-written writer: serialize_struct(%r, %d) + %s; the derived reader expects %s%s" % (hw.get("name"), len(hw.get("fields", [])), hw.get("fields"), want_seq,
+                                                                                                   "; members %s are omitted when empty by the attributes" % omitted if omitted else "")
         chk.expect(keys_ok, "R8.1", "type:" + short, where, detail, cfg)
     else:
         want = TAGS.get(short)
@@ -322,8 +393,13 @@ def check_type(chk, sf, short, feats, cfg, reg_de=True, hand=None):
                 chk.fail("R8.3", "split:%s::%s:rename" % (short, v["ident"]), vwhere, "rename split", cfg)
             tag = rn if isinstance(rn, str) else S.rename_variant(rename_all, v["ident"])
             ok = tag is not None and tag == want.get(v["ident"])
+            if hw is not None and ok:
+                pos_ = [i_ for i_, x_ in enumerate(it["variants"]) if x_["ident"] == v["ident"]][0]
+                wv_ = [x_ for x_ in hw.get("variants", []) if x_[0] == v["ident"]]
+                ok = hw.get("kind") == "enum" and len(wv_) == 1 and wv_[0][1] == short and wv_[0][2] == pos_ and wv_[0][3] == tag
             all_ok &= ok
-            chk.expect(ok, "R8.1", "tag:%s::%s" % (short, v["ident"]), vwhere, "JSON tag %r, documented %r" % (tag, want.get(v["ident"])), cfg)
+            chk.expect(ok, "R8.1", "tag:%s::%s" % (short, v["ident"]), vwhere, "JSON tag %r, documented %r%s" % (tag, want.get(v["ident"]),
+                       "; the hand-written writer writes %s" % [x_[1:] for x_ in hw.get("variants", []) if x_[0] == v["ident"]] if hw is not None else ""), cfg)
         missing = sorted(set(want) - {v["ident"] for v in it["variants"]})
         chk.expect(all_ok and not missing, "R8.1", "type:" + short, where, "%d tags; missing variants: %s" % (len(it["variants"]), missing), cfg)
 
@@ -340,7 +416,7 @@ def provenance(chk, prog, cfg):
             e = (imp["expn"] or [{}])[0]
             return imp["automatically_derived"] and e.get("kind") == "Derive" and e.get("crate") == "serde_derive"
         hs = hand_written(prog).get(short) or {}
-        okser = len(si) == 1 and (derived(si[0]) or hs.get("ser") is True)
+        okser = len(si) == 1 and (derived(si[0]) or hs.get("ser") is True or isinstance(hs.get("ser"), dict))
         okde = not di or (len(di) == 1 and (derived(di[0]) or hs.get("de") is True))
         ok = okser and okde
         need_de = "decode" in cfg.split("+") or short not in ("PortableRegistry", "PortableType")
